@@ -71,6 +71,17 @@ Section Scaling.
     | [] => []
     | xs :: r => let q := response agg ext damp sf xs in fst q :: response_run agg ext damp (snd q) r
     end.
+
+  (* a history of response() calls on ONE module whose aggregation parameter (PNorm.p, KSFunction.rho, SoftMinMax.alpha)
+     is re-assigned between the calls (continuation, sign flips): aggregation_function reads self.p / self.rho /
+     self.alpha at every call, so the aggregation function of call k is that of the CURRENT parameter:
+     hist = [(agg_k, x[select]_k)].  The register of the scaling object is carried across the calls as before. *)
+  Fixpoint response_run_par (ext : list K -> K) (damp : option K) (sf : option K)
+           (hist : list ((list K -> K) * list K)) : list K :=
+    match hist with
+    | [] => []
+    | (agg, xs) :: r => let q := response agg ext damp sf xs in fst q :: response_run_par ext damp (snd q) r
+    end.
 End Scaling.
 
 (* ---- evaluation instance for the correspondence check (Q; floats are converted exactly) *)
